@@ -4,12 +4,14 @@
    spec side: the documented answer computed naively from the content (Spec/BitSeq.v for bit lists; direct
      recursions over the run list / value list for universes up to 2^64-1 that cannot be expanded). A panic is
      never an acceptable answer. The spec side uses neither Model/ nor gen/.
-   model side: Model/BitVec.v for the plain bitvector (in the build's mode and select path), Model/IntVec.v and
-     Model/Builders.v for the constructors. The models of SparseVector / RLVector / WaveletMatrix are written in
-     other packages and are not available here: for those outputs the model side is vacuous (always agrees). *)
+   model side: Model/BitVec.v for the plain bitvector (in the build's mode and select path), Model/RL.v for the
+     run-length vector (rebuilt from the content by the same builder calls as in the harness; Check/C09RL.v),
+     Model/IntVec.v and Model/Builders.v for the constructors. The models of SparseVector / WaveletMatrix are
+     written in other packages and are not available here: for those outputs the model side is vacuous. *)
 From Coq Require Import NArith List Bool.
 Require Import SDS.Model.Mach SDS.Model.Bits SDS.Model.Raw SDS.Model.IntVec SDS.Model.BitVec SDS.Model.Builders.
 Require Import SDS.Spec.BitSeq SDS.Spec.BuilderSpec SDS.Check.Common.
+Require SDS.Model.RL SDS.Check.C09RL.     (* qualified: the iterator records have the same names as in BitVec *)
 Import ListNotations.
 Open Scope N_scope.
 
@@ -317,6 +319,45 @@ Definition model_bq (sp : selpath) (m : mode) (b : bitvec) (q : bq) : bool :=
             let* (it2, a2) := bi_next_f b it1 in Ok (a1, a2, bi_len it2)) o
   end.
 
+(* ---- RLVector: the third observed result. The model is evaluated only when the call was made (the thunk: walks
+   of 2^63 items are not executed by the harness and must not be evaluated here either) ---- *)
+Definition mr {A} (eqb : A -> A -> bool) (f : unit -> res A) (o : o3 A) : bool :=
+  match snd o with None => true | Some i => res_agree eqb (f tt) i end.
+Definition not_made {A} (o : o3 A) : bool := match snd o with None => true | Some _ => false end.
+
+Definition model_rl_bq (m : mode) (v : RL.rlvec) (q : bq) : bool :=
+  match q with
+  | QCounts o => mr n3_eqb (fun _ => C09RL.q_counts v) o
+  | QGet i o => mr Bool.eqb (fun _ => RL.rl_get m v i) o
+  | QRank i o => mr N.eqb (fun _ => RL.rl_rank m v i) o
+  | QRank0 i o => mr N.eqb (fun _ => RL.rl_rank_zero m v i) o
+  | QSel z r o => mr onat_eqb (fun _ => if z then RL.rl_select_zero m v r else RL.rl_select m v r) o
+  | QSelIter z r o => mr seli_eqb (fun _ => C09RL.q_sel_iter m v z r) o
+  | QPred x o => mr onn_eqb (fun _ => C09RL.q_pred m v x) o
+  | QSucc x o => mr onn_eqb (fun _ => C09RL.q_succ m v x) o
+  (* the RL iterators are forward only: nth_back / next_back do not exist *)
+  | QNth z back k n o => if back then not_made o else mr (nth_eqb nn_eqb) (fun _ => C09RL.q_nth m v z k n) o
+  | QBitNth back k n o => if back then not_made o else mr (nth_eqb Bool.eqb) (fun _ => C09RL.q_bit_nth m v k n) o
+  end.
+
+(* the RLVector of a content, as the harness builds it *)
+Definition rl_of (m : mode) (ct : content) : option (res RL.rlvec) :=
+  match ct with
+  | Bits len words => Some (C09RL.build m len (C09RL.runs_of_bits 0 None (bits_of len words)))
+  | Runs len runs => Some (C09RL.build m len runs)
+  | Multi _ _ => None
+  end.
+Definition model_rl (m : mode) (ct : content) (qs : list bq) : bool :=
+  match rl_of m ct with
+  | Some (Ok v) => forallb (model_rl_bq m v) qs
+  | Some _ => false
+  | None => forallb (fun q => match q with
+                              | QCounts o => not_made o | QGet _ o => not_made o | QRank _ o => not_made o
+                              | QRank0 _ o => not_made o | QSel _ _ o => not_made o | QSelIter _ _ o => not_made o
+                              | QPred _ o => not_made o | QSucc _ o => not_made o | QNth _ _ _ _ o => not_made o
+                              | QBitNth _ _ _ o => not_made o end) qs
+  end.
+
 Definition model_ivq (v : res intvec) (q : ivq) : bool :=
   match q with
   | IGetOr i d o => res_agree N.eqb (let* x := v in iv_get_or x i d) o
@@ -354,7 +395,7 @@ Definition check (c : case) : N :=
             | _ => false
             end
         | _ => true
-        end in
+        end && model_rl m ct qs in
       let O := oracle_of ct in
       code m_ok (forallb (spec_bq O) qs)
   | CWM path dbg has_wm vals r_len r_width qs =>
@@ -383,11 +424,16 @@ Definition explain (c : case) : list (N * bool * bool) :=
       let O := oracle_of ct in
       match ct with
       | Bits len words =>
-          match bv_enable_all sp m (bv_from_raw (mkraw len words)) with
-          | Ok b => tag (model_bq sp m b) (spec_bq O) qs 0
-          | _ => tag (fun _ => false) (spec_bq O) qs 0
+          match bv_enable_all sp m (bv_from_raw (mkraw len words)), rl_of m ct with
+          | Ok b, Some (Ok v) => tag (fun q => model_bq sp m b q && model_rl_bq m v q) (spec_bq O) qs 0
+          | _, _ => tag (fun _ => false) (spec_bq O) qs 0
           end
-      | _ => tag (fun _ => true) (spec_bq O) qs 0
+      | _ =>
+          match rl_of m ct with
+          | Some (Ok v) => tag (model_rl_bq m v) (spec_bq O) qs 0
+          | Some _ => tag (fun _ => false) (spec_bq O) qs 0
+          | None => tag (fun _ => true) (spec_bq O) qs 0
+          end
       end
   | CWM path dbg has_wm vals r_len r_width qs => tag (fun _ => true) (spec_wq vals (w_width vals)) qs 0
   | CIV dbg width vals qs => tag (fun _ => true) (spec_ivq vals) qs 0
